@@ -5,6 +5,7 @@ package main
 
 import (
 	"fmt"
+	"strconv"
 	"go/token"
 	"strings"
 	"unicode/utf8"
@@ -83,7 +84,15 @@ func (e *Exec) strBinop(op token.Token, x, y *StrV) Value {
 		if y.C != nil && *y.C == "" {
 			return x
 		}
-		return &StrV{T: "(str.++ " + x.T + " " + y.T + ")"}
+		var parts []*StrV
+		for _, o := range []*StrV{x, y} {
+			if len(o.Parts) > 0 {
+				parts = append(parts, o.Parts...)
+			} else {
+				parts = append(parts, o)
+			}
+		}
+		return &StrV{T: "(str.++ " + x.T + " " + y.T + ")", Parts: parts}
 	case token.LSS:
 		return &BoolV{T: "(str.< " + x.T + " " + y.T + ")"}
 	case token.LEQ:
@@ -121,7 +130,11 @@ func (e *Exec) strIndex(s *StrV, idx *BV, site string) Value {
 
 // strByteAt is the byte at an in-range Int position.
 func (e *Exec) strByteAt(s *StrV, pos string) *BV {
-	return &BV{T: "((_ int2bv 8) (str.to_code (str.at " + s.T + " " + pos + ")))", W: 8}
+	k := -1
+	if n, err := strconv.Atoi(pos); err == nil {
+		k = n
+	}
+	return &BV{T: "((_ int2bv 8) (str.to_code (str.at " + s.T + " " + pos + ")))", W: 8, ChS: s.T, ChI: pos, ChK: k}
 }
 
 func (e *Exec) strSlice(s *StrV, lo, hi *BV, site string) Value {
@@ -163,7 +176,9 @@ func (e *Exec) strToBytes(s *StrV) *SliceV {
 	for i := 0; i < n; i++ {
 		arr.E[i] = e.strByteAt(s, fmt.Sprint(i))
 	}
-	return &SliceV{O: e.newObj(arr, "bytes(str)"), Len: cbv(uint64(n), 64), Cap: n}
+	o := e.newObj(arr, "bytes(str)")
+	o.StrOrigin = s
+	return &SliceV{O: o, Len: cbv(uint64(n), 64), Cap: n}
 }
 
 func (e *Exec) strToRunes(s *StrV) *SliceV {
@@ -207,6 +222,9 @@ func (e *Exec) byteSlice(bs []byte) *SliceV {
 }
 
 func byteToStrTerm(b *BV) string {
+	if b.ChS != "" {
+		return "(str.at " + b.ChS + " " + b.ChI + ")"
+	}
 	return "(str.from_code (bv2nat " + b.T + "))"
 }
 
@@ -219,9 +237,33 @@ func (e *Exec) bytesToStr(sl *SliceV) *StrV {
 	if n == 0 {
 		return cstr("")
 	}
+	if sl.O != nil && sl.O.StrOrigin != nil && sl.Off == 0 && len(sl.P) == 0 {
+		if a, ok := sl.O.V.(*ArrayV); ok && len(a.E) == int(n) {
+			return sl.O.StrOrigin
+		}
+	}
 	allc := true
 	var conc []byte
 	var parts []string
+	// a run of consecutive characters of one string is a substring of it
+	run := true
+	var first *BV
+	for i := 0; i < int(n); i++ {
+		b, ok := e.sliceElem(sl, i).(*BV)
+		if !ok || b.ChS == "" || b.ChK < 0 {
+			run = false
+			break
+		}
+		if i == 0 {
+			first = b
+		} else if b.ChS != first.ChS || b.ChK != first.ChK+i {
+			run = false
+			break
+		}
+	}
+	if run && first != nil {
+		return &StrV{T: fmt.Sprintf("(str.substr %s %d %d)", first.ChS, first.ChK, n)}
+	}
 	for i := 0; i < int(n); i++ {
 		b, ok := e.sliceElem(sl, i).(*BV)
 		if !ok {
